@@ -32,7 +32,9 @@ FORMS = ["conc", "next", "seq", "var", "value", "push", "pushprop", "slice", "el
          "linit_var_merge", "linit_var_merge_x", "ifexp_x", "ret_x",
          # local declarations initialised from an expression result; Temporary declarations; a locally declared signal read
          # back through a typed view (lsig_view: the local signal has another vector kind, the view restores the source kind)
-         "linit_var_x", "linit_sig_x", "ltemp", "ltemp_x", "lsig_view", "lvar_view"]
+         "linit_var_x", "linit_sig_x", "ltemp", "ltemp_x", "lsig_view", "lvar_view",
+         # whole-array / element assignment between std.Array objects whose element types are the source and target type
+         "sarr_whole", "sarr_elem"]
 LIT_FORMS = ["conc", "seq", "var", "push", "init", "slice", "port", "ret", "ifexp", "view", "merge2", "ret2", "pdefault", "linit_var", "ctor"]
 
 
@@ -219,6 +221,11 @@ def render(s, t, form):
         L += [seq, "        def proc():", f"            s = Signal[{T}]({src})", "            self.tgt <<= s"]
     elif form == "linit_var":
         L += [seq, "        def proc():", f"            v = Variable[{T}]({src})", "            self.tgt <<= v"]
+    elif form in ("sarr_whole", "sarr_elem"):
+        L += [f"        asrc = std.Array[{tsrc(s)}, 2](name='asrc')", f"        adst = std.Array[{T}, 2](name='adst')",
+              seq, "        def proc():", "            nonlocal adst", f"            asrc[0] <<= {src}", f"            asrc[1] <<= {src}"]
+        L += ["            adst <<= asrc"] if form == "sarr_whole" else ["            adst[0] <<= asrc[0]", "            adst[1] <<= asrc[1]"]
+        L += ["            self.tgt <<= adst[1]"]
     elif form == "ltemp":
         L += [seq, "        def proc():", f"            tmp = Temporary[{T}]({src})", "            self.tgt <<= tmp"]
     elif form in ("lsig_view", "lvar_view"):
@@ -285,6 +292,8 @@ def applicable(s, t, form):
         return applicable(s, t, form[:-2])
     if form in ("lsig_view", "lvar_view"):
         return is_vec(s)
+    if form in ("sarr_whole", "sarr_elem"):
+        return is_vec(s) and is_vec(t)
     if form in ("ifexp_null", "ret_null", "linit_var_merge"):
         return is_vec(t) and s[0] not in ("int", "Null", "Full", "True", "False")
     if form == "port_ctx":
@@ -313,7 +322,7 @@ def analyse(s, t, form):
     if form.endswith("_x"):
         form = form[:-2]
     clocked = form in ("seq", "var", "value", "push", "pushprop", "linit_sig", "linit_var", "view_seq", "pdefault", "linit_var_merge",
-                       "ret", "ret2", "ret_null", "ltemp", "lsig_view", "lvar_view")
+                       "ret", "ret2", "ret_null", "ltemp", "lsig_view", "lvar_view", "sarr_whole", "sarr_elem")
     is_lit = s[0] in ("int", "Null", "Full", "True", "False")
     sim = d.sim(init=dict(clk=0, c=1))
     for raw in src_values(s):
@@ -331,7 +340,8 @@ def analyse(s, t, form):
                 kv["src"] = raw
             sim.set_many(kv)
             if clocked:
-                sim.clock()
+                for _ in range(3 if form.startswith("sarr") else 1):
+                    sim.clock()
             if form in ("slice", "elem"):
                 big = sim.get("big")
                 got = None if big is None else (big >> 1) & ((1 << wt) - 1)
